@@ -2521,7 +2521,13 @@ class BaseInterpreter(Generic[TContext, TEvent]):
 
             # 🏁 `onDone` transitions for compound/parallel states.
             if current.on_done and current.on_done.event == event.type:
-                if _passes(current.on_done):
+                # 🕰️ A `done.state.*` event waits in the same FIFO queue as
+                #    everything else, so the state may have left its final
+                #    configuration by the time the event is dequeued (an
+                #    earlier event re-entered it or moved a region out of its
+                #    final state). Taking `onDone` then would fire it while a
+                #    region is not final; a stale completion is simply dropped.
+                if self._is_state_done(current) and _passes(current.on_done):
                     eligible.append(current.on_done)
 
             # ⏰ `after` transitions for timed events.
